@@ -159,6 +159,22 @@ CLAIMED["C23"] = dict(
     note="Modules the compiler rejects with an error (about a quarter of the corpus) are counted, not claimed. Only the low bits of the IR type in returned values are compared. Known findings: narrow (i8/i16) and u32 values are never normalised, the structure detector silently drops CFG edges for some skeletons (exact harness names listed). Outside: floats, function pointers.",
     technique=TECH_TV)
 
+CLAIMED["C27"] = dict(
+    level="model_checking", design="§4 C27",
+    text="The whole real C front end (c_to_ir: preprocessor, parser, CSemantics typing/promotion/coercion, ConstantExpressionEvaluator, CContext.pack/sizeof/enum values, global/static initialiser generation, switch/case lowering) compiles program templates in which every integer literal of the constant expression carries a SYMBOLIC value over the whole range of its C type (made symbolic by wrapping CSemantics.on_number from the harness side; everything downstream is the real code on proxies). Uses: global/static initialisers of every integer type, array elements, struct members, case labels, enumerators, array sizes; operators + - * / % << >> & | ^ ~ - ! comparisons && || ?: and casts, depth 1 exhaustive, deeper trees sampled by VERIF_SEED. Per path z3 proves: the front end returns (no exception) and the observed bytes / case constant / array size equal ref/csem.py (C11 integer semantics for the target data model), under the premise that the expression is free of UB / constraint violations.",
+    note="Trusted: z3/cvc5, ref/csem.py, the engine (every path is repeated concretely with NO instrumentation: the model's literal values are printed into the C text and the unmodified c_to_ir is called). Genuine defects of the pinned tree in constant evaluation are listed as known findings grouped by root cause. Outside: floats, shift counts from huge literals, 64-bit symbolic products of sub-expressions, float division of symbolic integers (a change that introduces it ends in a harness error, not a verdict).",
+    technique=TECH)
+CLAIMED["C26"] = dict(
+    level="model_checking", design="§4 C26",
+    text="The #if / #elif half of the property: the real preprocessor (lexer, parse_expression, expression evaluation, conditional-inclusion state machine) processes directive templates whose integer literals carry SYMBOLIC values (unsuffixed 0..2**63-1, u-suffixed 0..2**64-1); expression shapes: depth 1 exhaustive over 18 binary operators, unary - ~ ! +, ?: with signed/unsigned leaves, observed through the branch taken and through comparisons against further symbolic literals; deeper trees sampled by VERIF_SEED. Per path z3 proves that the branch ppci keeps is the one C11 6.10.1 prescribes (intmax_t/uintmax_t arithmetic with unsigned contagion, ref/csem.py) and that no exception other than a diagnostic escapes.",
+    note="PARTIAL CLAIM: macro expansion, stringification (#), token pasting (##), rescanning and hide sets are token-sequence rewriting with no value dimension - not encodable as solver obligations (the oracle would be gcc -E on concrete texts, i.e. enumeration of concrete runs); they stay outside and a change there is not detected by this check. Also outside: defined(), identifiers and character constants in #if, #ifdef/#ifndef. Known findings of the pinned tree are listed with structural regions.",
+    technique=TECH)
+CLAIMED["C28"] = dict(
+    level="model_checking", design="§4 C28",
+    text="The value dimension of the property for the C front end: over the C27 (constant expressions in initialisers, case labels, enumerators, array sizes) and C26 (#if expressions) template families with every integer literal symbolic over its full type range, any path of the real c_to_ir / preprocessor that ends in an exception other than ppci's CompilerError (struct.error, KeyError, ZeroDivisionError, AssertionError, OverflowError, UnboundLocalError ...) is a violation, with the literal values as the model.",
+    note="PARTIAL CLAIM: the structural quantifier ('every syntactically valid input') is not encodable; only the stated template families are examined, in the dimension of their integer literal values. C3 and textual-IR front ends are outside. Known findings (internal errors of the pinned tree for particular literal values) are listed grouped by root cause.",
+    technique=TECH)
+
 NOT_APPLICABLE = {
     "C04": "property is about native execution of whole gcc/ppci-compiled programs; no x86-64 semantics model is in reach and running binaries is enumeration of concrete runs, not solver-based checking",
     "C06": "dataflow property over uninterpreted instruction semantics: a checker would be tag propagation in which a solver decides nothing",
